@@ -13,3 +13,10 @@ Definition live_code (ws : list N) : N :=
   | [] => 0
   | (pc, mask) :: _ => (pc + 1) + 4294967296 * mask
   end.
+
+(* 0, or 1 + the bit mask of the registers read before written from the entry *)
+Definition entry_code (arity : N) (ws : list N) : N :=
+  match entry_reads live_sweeps arity ws with
+  | 0 => 0
+  | m => 1 + m
+  end.
